@@ -202,6 +202,17 @@ def r_unsolved(ctx):
     return n
 
 
+def r_operand_access(ctx):
+    """An accessor reads the value of another object through that object's accessor (which raises when unsolved), never its `_value` directly."""
+    for cname, meth, kind in ACCESSORS:
+        fn = ctx.repo.method(cname, meth)
+        bad = [n for n in ast.walk(fn) if isinstance(n, ast.Attribute) and n.attr in ("_value", "_dual_variable_value") and dotted(n.value) != "self"]
+        ctx.ob("R-UNSOLVED", "%s.%s::operands through their accessor" % (cname, meth), not bad,
+               "operand values are obtained through eval() / eval_dual()" if not bad else
+               "reads `%s` directly: for an unsolved operand this is None and the accessor fails with another exception type (or computes with None) "
+               "instead of the documented ValueError" % src(bad[0]), loc(fn, bad[0] if bad else fn))
+
+
 def _handler_names(t):
     if t is None:
         return ["<bare>"]
@@ -367,6 +378,7 @@ def _lit(test):
 def run(ctx):
     ne = r_except(ctx)
     na = r_unsolved(ctx)
+    r_operand_access(ctx)
     r_none(ctx)
     no = r_options(ctx)
     ctx.floor("except clauses", ne, 4)
